@@ -472,12 +472,15 @@ impl Prop {
 
 pub fn gen_value_spec(rng: &mut Rng, prop: Prop) -> ValueSpec {
     use crate::plan::Shape;
-    let shape = match rng.below(20) {
+    let shape = match rng.below(24) {
         0..=10 => Shape::One,
         11..=13 => Shape::Many,
         14..=15 => Shape::Entry,
         16..=17 => Shape::Tagged,
-        _ => Shape::Keyed,
+        18..=19 => Shape::Keyed,
+        20 => Shape::Opt,
+        21..=22 => Shape::Untagged,
+        _ => Shape::Flatten,
     };
     let n = match shape {
         Shape::Many => rng.usize_below(if prop == Prop::C12 { 9 } else { 6 }),
